@@ -14,7 +14,9 @@ use std::time::{Duration, Instant};
 
 use verif_harness::locks::{Recorder, SyncEv};
 use verif_harness::pollworld::{MonitorThread, SimChain};
-use verif_harness::world::{initial_chain, Cfg, Meta, Op, Reply, World};
+use verif_harness::world::{initial_chain, Cfg, Meta, Op, Reply, World, INIT_HEIGHT};
+
+const INIT_TIP: usize = INIT_HEIGHT as usize;
 use verif_harness::{env_u64, Line};
 
 #[derive(Clone, Debug)]
@@ -63,6 +65,8 @@ struct Run {
     mdl: Vec<String>,
     /// length of the node's wire log when the outage was armed
     wire_mark: i64,
+    /// number of blocks handed to the listeners when the fault was armed
+    deliv_mark: i64,
     /// per-thread traces (node's wire log, condition-variable events) taken before any forced release
     snapshot: Option<(String, String)>,
 }
@@ -83,6 +87,8 @@ impl Run {
         let mon = MonitorThread::spawn(chain.source.clone(), chain.tip_header(), &w);
         let mon_tid = mon.handle.as_ref().map(|h| h.thread().id());
         rec.start_trace();
+        verif_harness::evlog::clear();
+        verif_harness::evlog::enable(true);
         Run {
             w,
             chain,
@@ -102,6 +108,7 @@ impl Run {
             api_tids: Vec::new(),
             mdl: Vec::new(),
             wire_mark: -1,
+            deliv_mark: -1,
             snapshot: None,
         }
     }
@@ -290,6 +297,7 @@ impl Run {
                 let mut st = self.w.node.0.lock().unwrap();
                 st.outage_at = Some(st.calls + n);
                 self.wire_mark = st.wire.len() as i64;
+                self.deliv_mark = delivered_heights().len() as i64;
             }
             Step::NodeUp => {
                 self.link.store(false, Ordering::SeqCst);
@@ -297,6 +305,7 @@ impl Run {
             }
             Step::FailBlock(j) => {
                 self.chain.source.0.lock().unwrap().fail_block_in = Some(*j);
+                self.deliv_mark = delivered_heights().len() as i64;
             }
             Step::Probe => {
                 let knows = self.tower_knows_down();
@@ -334,12 +343,16 @@ impl Run {
     }
 
     /// End of scenario: is anything still blocked although the node is reachable again and polls succeed?
-    fn finish(mut self) -> Vec<String> {
+    fn finish(self) -> Vec<String> {
+        self.finish_with(true)
+    }
+
+    fn finish_with(mut self, polls: bool) -> Vec<String> {
         // give the tower what it needs to recover by itself: node up, two successful polls
         self.link.store(false, Ordering::SeqCst);
         self.mdl.push("U".into());
         for i in 0..2 {
-            if !self.mon.polling {
+            if polls && !self.mon.polling {
                 self.step(&Step::Poll, 900 + i);
             }
         }
@@ -385,7 +398,9 @@ impl Run {
         out.push(format!("wmark={}", self.wire_mark));
         out.push(format!("wire={wire}"));
         out.push(format!("sync={sync}"));
-        out.push(format!("mdl={}", self.mdl.join("/")));
+        out.push(format!("mdl={}", if polls { self.mdl.join("/") } else { String::new() }));
+        out.push(format!("dmark={}", self.deliv_mark));
+        out.push(format!("deliv={}", delivered_heights().join(",")));
         out.push(format!("state=[{}]", line.0));
         let _ = sends;
         self.mon.stop();
@@ -513,6 +528,68 @@ fn run_scenario(t: u32, fault: Option<(u64, u32, bool)>, armed: bool, rec: &Arc<
     out
 }
 
+/// heights of the blocks handed to the listeners so far (BC events of the first listener), in order
+fn delivered_heights() -> Vec<String> {
+    verif_harness::evlog::snapshot()
+        .iter()
+        .filter_map(|(_, e)| e.strip_prefix("BC:").and_then(|r| r.rsplit(':').next().map(|h| h.to_string())))
+        .collect()
+}
+
+/// `monitor_chain` ITSELF (polling every second) over a 4-block backlog whose `stall`-th download takes longer
+/// than the polling interval: a poll must not be abandoned half-way (the SPV client would lose the tip it had
+/// reached and hand the same blocks to the listeners again).
+fn run_stall_scenario(stall: Option<u64>, rec: &Arc<Recorder>, init: &[(u64, bitcoin::Block)], tag: &str) -> Vec<String> {
+    let mut r = Run::new(work_dir(tag), rec.clone(), init);
+    r.w.make_blob(1, 101, 0, 0);
+    r.w.make_blob(2, 102, 0, 0);
+    let add = |u: i64, loc: u64, blob: usize| Step::Api(Op::Add { signer: u, class: 0, loc, blob, delay: 10 });
+    let steps = vec![
+        Step::Api(Op::Register(0)),
+        Step::Api(Op::Register(1)),
+        add(0, 1, 0),
+        add(1, 2, 1),
+        Step::Mine(vec![]),
+        Step::Mine(vec![1]),
+        Step::Mine(vec![]),
+        Step::Mine(vec![2]),
+    ];
+    for (i, s) in steps.iter().enumerate() {
+        r.step(s, i);
+    }
+    if let Some(j) = stall {
+        let mut st = r.chain.source.0.lock().unwrap();
+        st.stall_block_in = Some(j);
+        st.stall_ms = 1700;
+    }
+    // the on-demand monitor thread of `Run` stays idle; the loop gets a monitor of its own on the same tower
+    let (handle, trigger) = MonitorThread::spawn_loop(r.chain.source.clone(), r.chain.header_at(r.chain.active[INIT_TIP].1).unwrap(), &r.w, 1);
+    let t0 = Instant::now();
+    let want = 4usize;
+    // until every block has been handed over and the loop has had one more round, at most 9 s
+    let mut done_at: Option<Instant> = None;
+    loop {
+        std::thread::sleep(Duration::from_millis(20));
+        if done_at.is_none() && delivered_heights().len() >= want {
+            done_at = Some(Instant::now());
+        }
+        let settled = done_at.map(|d| d.elapsed() > Duration::from_millis(if stall.is_some() { 2300 } else { 300 })).unwrap_or(false);
+        if settled || t0.elapsed() > Duration::from_secs(9) {
+            break;
+        }
+    }
+    trigger.trigger();
+    let t1 = Instant::now();
+    while !handle.is_finished() && t1.elapsed() < Duration::from_secs(4) {
+        std::thread::sleep(Duration::from_millis(10));
+    }
+    r.out.push(format!("loop={}", if handle.is_finished() { "returned" } else { "STUCK" }));
+    let dir = r.w.dir.clone();
+    let out = r.finish_with(false);
+    let _ = std::fs::remove_dir_all(dir);
+    out
+}
+
 fn main() {
     let args: Vec<String> = std::env::args().collect();
     if args.len() < 2 {
@@ -548,6 +625,14 @@ fn main() {
                 }
             }
         }
+    }
+    // monitor_chain itself, with a download that stalls longer than the polling interval (twin: no stall)
+    let twin = run_stall_scenario(None, &rec, &init, "twin");
+    writeln!(out, "OT 5 -1 0 0 | {}", twin.join(" ")).unwrap();
+    let stalls: &[u64] = if thorough { &[0, 1, 2, 3] } else { &[2] };
+    for j in stalls {
+        let o = run_stall_scenario(Some(*j), &rec, &init, "f");
+        writeln!(out, "OT 5 {j} 0 0 | {}", o.join(" ")).unwrap();
     }
     out.flush().unwrap();
     std::process::exit(0);
